@@ -57,13 +57,18 @@ SELECTIONS = [
     # other vm variants: two vms needing equally named states from different setup tests
     ("only normal\nonly tutorial3\n", {"vm1": "only Fedora\n", "vm2": "only Win10\n", "vm3": "only Ubuntu\n"}, "net1 net2"),
     ("only normal\nonly tutorial1,tutorial3\n", {"vm1": "only Fedora\n", "vm2": "only Win7\n", "vm3": "only Ubuntu\n"}, "net1 net2"),
+    # a reversible setup test selected through a nested set (normal.gui) that is also the setup of tests of another set
+    ("only leaves..tutorial_get..explicit_noop,leaves..tutorial_get..implicit_both,normal..tutorial_gui..client_noop\n",
+     {"vm1": "only CentOS\n", "vm2": "only Win10\n", "vm3": "only Ubuntu\n"}, "net1"),
 ]
+MIXED_SETS = len(SELECTIONS) - 1
 
 
 def gen_parsed_spec(rng, idx=None):
     """idx: position in SELECTIONS (every selection is covered once per len(SELECTIONS) cases); None: random"""
     tests_str, vm_strs, nets = SELECTIONS[idx % len(SELECTIONS)] if idx is not None else rng.choice(SELECTIONS)
     cfg = {"test_timeout": 1000}
+    mixed = idx is not None and idx % len(SELECTIONS) == len(SELECTIONS) - 1
     if rng.random() < 0.4:
         cfg["max_tries"] = rng.choice([1, 2, 2, 3])
         if rng.random() < 0.3:
@@ -82,7 +87,24 @@ def gen_parsed_spec(rng, idx=None):
             st = "PASS" if rng.random() < 0.8 else rng.choice(["FAIL", "ERROR", "WARN", "SKIP", None])
             seq.append([rng.choice([1, 2, 3, 5, 8, 13, 40]), st])
         sched[wid] = seq
-    return {"parsed": {"tests_str": tests_str, "vm_strs": vm_strs, "nets": nets}, "cfg": cfg, "pool": {}, "schedule": sched}
+    spec = {"parsed": {"tests_str": tests_str, "vm_strs": vm_strs, "nets": nets}, "cfg": cfg, "pool": {}, "schedule": sched}
+    if mixed:
+        # one composite node serving two flat nodes of different test sets: the order in which the worker walks such a graph
+        # is not reproduced by the model (a gap of the MODEL's lazy layer, DESIGN 11.2); judged by the monitors and by the
+        # comparison with the eager parse only
+        spec["monitors_only"] = "composite node shared by flat nodes of two test sets"
+    return spec
+
+
+_SETS = ["normal.nongui", "normal.gui", "nonleaves", "minimal", "leaves", "normal", "all"]     # longest first
+
+
+def _setless(name):
+    """a node is the same test whatever test set selected it: the name below the main restriction"""
+    for m in _SETS:
+        if name.startswith(m + "."):
+            return name[len(m) + 1:]
+    return name
 
 
 class LazyParsedRun(ParsedRun):
@@ -116,7 +138,8 @@ class LazyParsedRun(ParsedRun):
         for n in eager.nodes:
             if len(n.cloned_nodes) > 0:
                 continue   # a clone source is a pass-through placeholder (never runnable); which producer it keeps is parse-order dependent
-            self.eager_parents.setdefault(n.params["name"], []).append(sorted(p.params["name"] for p in n.setup_nodes))
+            self.eager_parents.setdefault(_setless(n.params["name"]), []).append(
+                sorted(_setless(p.params["name"]) for p in n.setup_nodes))
         # 2. the graph the runner builds for a test suite (TestRunner.run_workers)
         graph = m.TestGraph()
         graph.restrs.update(config["vm_strs"])
@@ -147,8 +170,8 @@ class LazyParsedRun(ParsedRun):
         for n in self.graph.nodes:
             if n.is_flat() or len(n.cloned_nodes) > 0:
                 continue
-            lazy.setdefault(n.params["name"], []).append(
-                sorted(p.params["name"] for p in n.setup_nodes if not p.is_flat() or p.is_shared_root()))
+            lazy.setdefault(_setless(n.params["name"]), []).append(
+                sorted(_setless(p.params["name"]) for p in n.setup_nodes if not p.is_flat() or p.is_shared_root()))
         for name, got in lazy.items():
             want = self.eager_parents.get(name)
             if want is None:
